@@ -18,7 +18,7 @@ COMPONENTS = E1_COMPONENTS
 ASSUMPTIONS = E1_ASSUMPTIONS + [
     "index titles: the path separator of the relative directory may be kept or replaced by the configured separator "
     "(the statement does not choose); both are accepted"]
-PROBES = ["name_or_prefix_with_backslash", "directory_named_CMakeFiles", "rerun_over_longer_stale_indexes", "cwd_inside_tree", "dir_pattern_excluded", "dir_auto_excluded", "dir_emptied_by_exclusion", "depth_ge_2_recursive",
+PROBES = ["other_input_first", "name_or_prefix_with_backslash", "directory_named_CMakeFiles", "rerun_over_longer_stale_indexes", "cwd_inside_tree", "dir_pattern_excluded", "dir_auto_excluded", "dir_emptied_by_exclusion", "depth_ge_2_recursive",
           "sep_not_dot", "nested_below_dir_without_cmake", "nonrecursive", "prefix_default", "prefix_explicit"]
 
 
@@ -33,6 +33,9 @@ def swarm(rng, tier):
         "single": False,
         "backslash_names": rng.random() < 0.25,
     }
+
+
+DECOY = "decoys/zzdecoy/zzdecoy_mod.cmake"
 
 
 def strategy(cfg):
@@ -183,6 +186,24 @@ def evaluate(spec, ctx):
                 viols += check_tree(spec, core.read_tree(base, spec["out"]), tree, walk, "re-run over stale, longer index files", ctx)
                 if viols:
                     break
+                # another directory documented first in the same invocation, into the same output directory: this
+                # input's indexes (written last) must still name this input's directories and be closed
+                if "index.rst" in pages and "zzdecoy_mod.rst" not in pages:
+                    c13.remove_outputs(base, [spec["out"]])
+                    core.materialise(base, {DECOY: "set(zqdecoy 1)\n"})
+                    overlay, argv = c13.variant_setup(spec, var)
+                    argv = argv[:-1] + [base + "/" + posixpath.dirname(DECOY), argv[-1]]
+                    r3 = core.run_call(base, {"cwd": var["cwd"], "argv": argv, "listing_key": var["listing_key"],
+                                              "listing_explicit": var["listing_explicit"]})
+                    ctx.note_call(r3)
+                    ctx.probes["other_input_first"] += 1
+                    if r3.status != 0:
+                        viols.append(viol("run-failed", f"another directory first: status {r3.status} exc {r3.exc}"))
+                        break
+                    pages3 = {k: v for k, v in core.read_tree(base, spec["out"]).items() if k != "zzdecoy_mod.rst"}
+                    viols += check_tree(spec, pages3, tree, walk, "another directory documented first in the same invocation", ctx)
+                    if viols:
+                        break
     finally:
         core.drop_base(base)
     return viols
